@@ -403,7 +403,7 @@ func (z *ZodBigInt[T]) parseNilInput(
 	}
 	if ti.DefaultValue != nil {
 		v, err := engine.ConvertToConstraintType[*big.Int, T](
-			ti.DefaultValue,
+			engine.CloneDefaultValue(ti.DefaultValue),
 			pctx,
 			core.ZodTypeBigInt,
 		)
@@ -420,7 +420,7 @@ func (z *ZodBigInt[T]) parseNilInput(
 
 	switch {
 	case ti.PrefaultValue != nil:
-		return zero, ti.PrefaultValue, false, nil
+		return zero, engine.CloneDefaultValue(ti.PrefaultValue), false, nil
 	case ti.PrefaultFunc != nil:
 		return zero, ti.PrefaultFunc(), false, nil
 	case ti.Optional || ti.Nilable:
